@@ -23,6 +23,9 @@ PEST_FILES = [
 ]
 
 HAND = [
+    # tag names have no reserved words (only identifiers exclude a PUSH prefix); raw CR / CR LF inside literals are characters of the literal
+    "r = { #PUSH = a }", "r = { #PUSHED = a ~ #PUSH_more = (a | b) }", "r = { #POP = a ~ #PEEK_ALL = a ~ #DROP = a ~ #ANY = a ~ #EOI = a }", "r = { #PUSH_LITERAL = a }", "PUSHED = { a }", "r = { PUSHED }",
+    'r = { "a\r\nb" }', 'r = { ^"\r\n" ~ "\r" }', 'r = { PUSH_LITERAL("\r\n") }', "r = { '\r'..'\n' }", "r = { '\r\n'..'~' }", 'r = { "x\ry" | "\n\r" }', "r = { 'a'..'\r' }",
     # a leading choice operator is allowed at the start of EVERY expression: rule body, group, PUSH( ), and nowhere else
     'r = { PUSH( | "a" | "b") }', 'r = { PUSH(|"a") ~ (| "b") }', 'r = { ( | "a" | "b")* }', 'r = { !( | "a") ~ &(|"b" | "c") }', 'r = { PUSH( | PUSH( | "a")) }', 'r = { #t = ( | "a") }',
     'r = { PUSH( || "a") }', 'r = { "a" ~ | "b" }', 'r = { ("a" | | "b") }', 'r = { PUSH("a" | ) }', 'r = { ! | "a" }', 'r = { | }', 'r = { PUSH( | ) }', 'r = { "a" | ( | ) }',
